@@ -2,7 +2,7 @@
    Statements only; proofs in ProofsCore.v / ProofsWrap.v.  The code-shaped function is
    Store.wrap_model (utils.wrap: mask with 2^n-1, then OR with -2^n above the sign bit). *)
 From Coq Require Import ZArith List Bool.
-From FxpVerif Require Import Spec NP Store ProofsCore ProofsStore ProofsWrap.
+From FxpVerif Require Import Spec SpecArith NP Store ProofsCore ProofsStore ProofsWrap Arith ProofsArith ProofsExact.
 Import ListNotations.
 Open Scope Z_scope.
 
@@ -77,6 +77,24 @@ Theorem C03_wide_words : forall f r raw zs, 64 <= nw f -> (raw = true \/ 0 <= nf
     w_ovf w = existsb (fun c => cmax f <? c) cs /\ w_unf w = existsb (fun c => c <? cmin f) cs.
 Proof. intros f r raw zs. exact (set_val_wide_ints f r Wrap raw zs). Qed.
 Print Assumptions C03_wide_words.
+
+(* "storing arithmetic results with wrap behaves like an n_word-bit hardware register": the product of two operands of
+   ANY width, of which some element needs more than 53 bits, stored into ANY format with fewer fraction bits than the
+   product has (the register of C03 when o = Wrap): the exact product quantized, codes and flags, rounded once *)
+Theorem C03_wide_product_into_register : forall fx fy cxs cys ft r o,
+  wf_op fx -> wf_op fy -> 1 <= nw ft -> nf ft - nf fx - nf fy < 0 ->
+  length cxs = length cys -> Forall (in_range fx) cxs -> Forall (in_range fy) cys ->
+  existsb (fun p => 2^53 <=? Z.abs (fst p * snd p)) (combine cxs cys) = true ->
+  arith_raw OpMul fx cxs fy cys ft r o
+  = Ok (spec_wres ft r o (map (fun p => exact_codes OpMul fx (fst p) fy (snd p)) (combine cxs cys))).
+Proof. exact mul_into_fewer_fraction_bits. Qed.
+Print Assumptions C03_wide_product_into_register.
+
+Example C03_wide_product_nonvacuous :
+  let f := {| sg := true; nw := 32; nf := 16 |} in
+  arith_raw OpMul f [2^30 + 1] f [2^30 + 3] f Floor Wrap
+  = Ok {| w_codes := [65536]; w_ovf := true; w_unf := false; w_inacc := true |}.
+Proof. vm_compute. reflexivity. Qed.
 
 Example C03_nonvacuous :
   let f := {| sg := true; nw := 72; nf := 0 |} in
